@@ -311,7 +311,7 @@ CHECKS = {
         "groups": [
             {"pkg": "./server/telemetry", "overlay": "telemetry", "pkgname": "telemetry",
              "harnesses": [
-                 {"name": "VerifC19Collector", "covers": ["done", "enabled", "disabled", "no-interval"], "replay": "interpreted",
+                 {"name": "VerifC19Collector", "covers": ["no-data-dir", "done", "enabled", "disabled", "no-interval"], "replay": "interpreted",
                   "targets": ["Collector).Start", "Collector).sendTelemetry", "Collector).collectPayload", "loadOrCreateInstanceID"]},
              ]},
             {"pkg": "./server", "overlay": "server", "pkgname": "server",
